@@ -508,3 +508,7 @@ Fixpoint general_names_find (fuel : nat) (inp : list N) (choice : N) : option (o
            end
     end
   end.
+
+(* x509_validity_add_days: days in [1, 3653], no wrap (time_t arithmetic on 64-bit integers) *)
+Definition validity_add_days (not_before : Z) (days : Z) : option Z :=
+  if ((days <? 1) || (3653 <? days))%Z then None else Some (not_before + days * 86400)%Z.
